@@ -76,7 +76,7 @@ func c04Case(w *rt.W, s uint64, cfg int, containers bool) {
 	} else if len(mt) == 0 || mt[len(mt)-1] != 'B' || string(mt) == dec {
 		fail("text-form-kind", "MarshalText with unit", string(mt), "digits followed by a unit")
 	}
-	var ut size.Size
+	ut := size.Size(s ^ 0x7777) // the receivers already hold another size
 	err = ut.UnmarshalText(append([]byte(nil), mt...))
 	w.Eval(1)
 	if err != nil || ut != sz {
@@ -127,7 +127,7 @@ func c04Case(w *rt.W, s uint64, cfg int, containers bool) {
 			fail("json-form-kind", "MarshalJSON number form", string(mj), dec)
 		}
 	}
-	var uj size.Size
+	uj := size.Size(s + 999)
 	err = uj.UnmarshalJSON(append([]byte(nil), mj...))
 	w.Eval(1)
 	if err != nil || uj != sz {
@@ -202,6 +202,42 @@ func c04Case(w *rt.W, s uint64, cfg int, containers bool) {
 	w.ClassN("container-roundtrip", 1)
 }
 
+func init() {
+	coldCases["C04"] = func(c *rt.Ctx, idx int) {
+		first := []func(s uint64){
+			func(s uint64) { var z size.Size; _ = z.UnmarshalText([]byte("0B")) },
+			func(s uint64) { var z size.Size; _ = z.UnmarshalJSON([]byte(`{"value":0,"unit":"B"}`)) },
+			func(s uint64) { _ = size.Size(0).String() },
+			func(s uint64) { _, _ = size.New(0, "KiB") },
+			func(s uint64) { _, _ = size.DefaultParser("0 YiB", 0) },
+			func(s uint64) { _ = size.Size(s).PrettyString() },
+			func(s uint64) { _, _ = size.Size(0).MarshalJSON() },
+			func(s uint64) { _, _ = size.Size(s).MarshalText() },
+			func(s uint64) { _, _ = size.DefaultParser(`"1kB"`, size.DefaultRule) },
+			func(s uint64) {},
+		}[idx%10]
+		cfg := (idx / 10) % 8
+		restore := c04Apply(cfg)
+		defer restore()
+		sizes := []uint64{0, 1, 1023, 1024, 7 << 20, 1536 << 30, 1 << 60, ^uint64(0), 1000000, 0}
+		if idx >= 20 { // the very first calls of the process arrive from 16 goroutines at once
+			c.Parallel("cold", 16, func(w *rt.W) {
+				first(sizes[w.Shard%len(sizes)])
+				for k := 0; k < 3; k++ {
+					c04Case(w, sizes[(w.Shard+k)%len(sizes)], cfg, true)
+				}
+			})
+			return
+		}
+		c.Serial("cold", func(w *rt.W) {
+			first(sizes[idx%len(sizes)])
+			for _, s := range sizes {
+				c04Case(w, s, cfg, true)
+			}
+		})
+	}
+}
+
 func runC04(c *rt.Ctx) {
 	c.SetRule("sizes: all values below 2^20 (exhaustive), odd x 2^k for every k in 0..63, every decimal length 1..20, neighbours of 1000^k and 1024^k, the largest multiples of each 1024^k, 2^64-1..2^64-4, seeded 64-bit values; x all 8 combinations of DisableMarshalTextUnit / DisableMarshalJSONStringForm / DisableMarshalJSONObjectForm; " +
 		"paths: MarshalText->UnmarshalText, MarshalJSON->UnmarshalJSON (plus a check that the form is the one the switches select), String/PrettyString/BytesString/BytesJSONNumber -> parser, json.Marshal->json.Unmarshal of a document with struct field, pointer field, slice, map value, nested struct with pointer slice, and map key. " +
@@ -260,6 +296,7 @@ func runC04(c *rt.Ctx) {
 			}
 		})
 	}
+	coldStart(c, "C04", 60)
 	c.Exhaustive("all sizes below 2^20 x 8 switch combinations")
 	c.Require("stratified-set-under-switches", 8)
 	c.Require("container-roundtrip", 100000)
